@@ -12,7 +12,7 @@ LEVEL_TEXT = ("Static structural proof of necessary conditions: (R19.1) the port
               "the same function; (R19.3) functions that write into the cache are reachable only from inside a "
               "`with CacheLock(...)` body; (R19.4) no `except A or B` handler. Mutual exclusion and crash "
               "consistency as properties of executions, timeouts and refresh intervals are NOT decided.")
-LEVEL_EXTRA = 'Added after the seeded evaluation: (R19.2) the temporary name cannot equal the final name (callers pass a temporary file); (R19.5) the lock file is never removed or renamed; (R19.6) a lock body that fetches from the network keeps write_time on. (R19.7) looking up a version that is missing from the cache folder (re)runs the local population. (R19.8) only time-recording holders are refused inside the refresh interval; (R19.9) the last-refresh time is read while the lock is held. (R19.10) the lock path is a path join under the folder; (R19.11) an existing cached file is returned only under a comparison with its computed hash. (R19.12) the version-file pattern is anchored at its end wherever it is applied with match/search. (R19.13) the lock waits up to its timeout (no fail_when_locked). (R19.14) a parameter is handed on to every repository callee that takes a parameter of the same name (11 frozen exceptions package-wide).'
+LEVEL_EXTRA = 'Added after the seeded evaluation: (R19.2) the temporary name cannot equal the final name (callers pass a temporary file); (R19.5) the lock file is never removed or renamed; (R19.6) a lock body that fetches from the network keeps write_time on. (R19.7) looking up a version that is missing from the cache folder (re)runs the local population. (R19.8) only time-recording holders are refused inside the refresh interval; (R19.9) the last-refresh time is read while the lock is held. (R19.10) the lock path is a path join under the folder; (R19.11) an existing cached file is returned only under a comparison with its computed hash. (R19.12) the version-file pattern is anchored at its end wherever it is applied with match/search. (R19.13) the lock waits up to its timeout (no fail_when_locked). (R19.14) a parameter is handed on to every repository callee that takes a parameter of the same name (11 frozen exceptions package-wide). (R19.16) a lock body that only copies the installed files is built with write_time=False; (R19.15) the refresh time is written before the lock is released.'
 
 MODULES = ["hed.schema.hed_cache", "hed.schema.hed_cache_lock"]
 HANDLER_MODULES = MODULES + ["hed.schema.hed_schema_io", "hed.schema.schema_io.schema_util"]
@@ -281,6 +281,8 @@ def run(ctx):
         if any(isinstance(c, ast.Call) and call_name(c) in ("make_url_request", "urlopen", "url_to_file") for c in walk_no_nested(f.node)):
             fetchers.add(f)
     n_fetch_sites = 0
+    n_local_sites = [0]
+    ctx.rule("R19.16", "a `with CacheLock(...)` whose body only copies the installed files is built with write_time=False")
     for f in prog.functions.values():
         for w in ast.walk(f.node):
             if not isinstance(w, ast.With):
@@ -298,6 +300,15 @@ def run(ctx):
                             fetches.append(c)
                             break
                 if not fetches:
+                    # R19.16: a body that only populates from the installed package is not a refresh
+                    n_local_sites[0] += 1
+                    ctx.saw(f)
+                    is_off = wt is not None and isinstance(wt, ast.Constant) and wt.value is False
+                    ctx.check(is_off, "R19.16", f.qualname, ce, loc(f, ce),
+                              "the lock around a population from the installed package (no network fetch in the body) is built with "
+                              "write_time on: the copy is then refused inside the refresh interval and records a refresh time even when "
+                              "it was interrupted, so after an interrupted first use a later load cannot complete the cache and fails",
+                              desc="local population in %s is not subject to the refresh interval" % f.short)
                     continue
                 n_fetch_sites += 1
                 ctx.saw(f)
@@ -308,6 +319,7 @@ def run(ctx):
                           "can change within the interval" % (norm(fetches[0])[:50], norm(wt) if wt is not None else "?"),
                           desc="network refresh in %s records its time" % f.short)
     ctx.floor("R19.6", "lock bodies that fetch from the network", n_fetch_sites, 2)
+    ctx.floor("R19.16", "lock bodies that populate locally", n_local_sites[0], 2)
 
     # ---------------- R19.7: an incomplete cache is completed when a bundled version is asked for
     ctx.rule("R19.7", "looking a version up (re)copies the bundled schemas when that version is missing, not only when the folder is empty")
@@ -465,3 +477,21 @@ def run(ctx):
     from sa.forward import check_forwarding
     nfw = check_forwarding(ctx, "R19.14", [f for f in prog.functions.values() if f.module.name.startswith(('hed.schema.hed_cache', 'hed.schema.hed_cache_lock', 'hed.schema.schema_io.schema_util'))], 'e.g. the cache folder, the prerelease switch')
     ctx.floor("R19.14", "same-named parameter sites", nfw, 1)
+
+    # ---------------- R19.15: the refresh time is recorded while the lock is still held
+    ctx.rule("R19.15", "in CacheLock.__exit__ the refresh time is written before the lock is released")
+    ex15 = lock_cls.methods.get("__exit__")
+    if ex15 is None:
+        raise AnalysisError("anchor CacheLock.__exit__ vanished")
+    ctx.saw(ex15)
+    v15 = view(ctx, ex15)
+    writes15 = [n for (n, c) in v15.calls(lambda c: call_name(c) == "_write_last_cached_time")]
+    rel15 = [n for (n, c) in v15.calls(lambda c: isinstance(c.func, ast.Attribute) and c.func.attr in ("release", "close", "unlock"))]
+    ctx.floor("R19.15", "timestamp writes in __exit__", len(writes15), 1)
+    ctx.floor("R19.15", "lock releases in __exit__", len(rel15), 1)
+    for w15 in writes15:
+        before = [r for r in rel15 if w15 in v15.cfg.reachable_from(r, True)]
+        ctx.check(not before, "R19.15", ex15.qualname, w15.ast, loc(ex15, w15.ast),
+                  "the refresh time is written after the lock has been released: a second refresher can take the lock in between, "
+                  "read the old time and refresh again inside the interval (two holders' critical work overlaps)",
+                  desc="timestamp written before release")
